@@ -9,7 +9,7 @@ import TrompModel.Model.Ring
 namespace Tromp.Cxx
 
 /-- `list<T, Disposer>::end` — translated from include/trompeloeil/mock.hpp:1583 -/
-def ring_end (this : Ring.Ptr) (h : Ring.Heap) : Ring.Ptr := Id.run do
+def ring_end (this : Ring.Ptr) (h : Ring.Heap Ring.Ptr) : Ring.Ptr := Id.run do
   return this
 
 end Tromp.Cxx
